@@ -170,7 +170,7 @@ theorem handleDot_ext (comma : Bool) (rest : Text) (st st' : CSt) (k : Nat)
       | ok st1 =>
         rw [h2] at h; injection h with h; injection h with h _
         rw [← h]
-        exact ext_field_step st st1 _ _ h2 (good_untracked _ _ (by simp [dtStepWF, hn]) (by decide) (by decide) (by decide))
+        exact ext_field_step st st1 _ _ h2 (good_untracked _ _ (by simp [dtStepWF, hn]) (by decide) (by decide) (by decide) (by setter_bits) (by decide))
   · injection h with h; injection h with h _
     rw [← h]
     cases comma <;> exact ext_addStep st _ rfl
@@ -188,7 +188,7 @@ theorem handleFraction_ext (c : Char) (rest : Text) (st st' : CSt) (k : Nat)
     | ok st1 =>
       rw [h2] at h; injection h with h; injection h with h _
       rw [← h]
-      exact ext_field_step st st1 _ _ h2 (good_untracked _ _ (by simp [dtStepWF, hn]) (by decide) (by decide) (by decide))
+      exact ext_field_step st st1 _ _ h2 (good_untracked _ _ (by simp [dtStepWF, hn]) (by decide) (by decide) (by decide) (by setter_bits) (by decide))
 
 theorem handleDefault_ext (c : Char) (st st' : CSt) (k : Nat) (h : handleDefault c st = .ok (st', k)) : Ext st st' := by
   unfold handleDefault at h
@@ -221,10 +221,17 @@ theorem handleCommon_ext (c : Char) (rest : Text) (st st' : CSt) (k : Nat)
         · injection h with h; injection h with h _; rw [← h]; exact ext_addStep st _ rfl
       · cases h
 
+theorem setterBits_mono (b1 b2 : Nat) (s : Step) (h : SetterBits b1 s ∨ SetterBits b2 s) : SetterBits (b1 ||| b2) s := by
+  intro x hx hne
+  rw [hasAny_or]
+  rcases h with h | h
+  · rw [h x hx hne]; rfl
+  · rw [h x hx hne]; simp
+
 theorem ext_trans (a b c : CSt) (h1 : Ext a b) (h2 : Ext b c) : Ext a c := by
-  obtain ⟨b1, a1, e1, e2, g1, g2, g3, g4⟩ := h1
-  obtain ⟨b2, a2, f1, f2, k1, k2, k3, k4⟩ := h2
-  refine ⟨b1 ||| b2, a1 ++ a2, by rw [f1, e1, Nat.or_assoc], by rw [f2, e2, List.append_assoc], ?_, ?_, ?_, ?_⟩
+  obtain ⟨b1, a1, e1, e2, g1, g2, g3, g4, g5, g6⟩ := h1
+  obtain ⟨b2, a2, f1, f2, k1, k2, k3, k4, k5, k6⟩ := h2
+  refine ⟨b1 ||| b2, a1 ++ a2, by rw [f1, e1, Nat.or_assoc], by rw [f2, e2, List.append_assoc], ?_, ?_, ?_, ?_, ?_, ?_⟩
   · rw [List.all_append, g1, k1]; rfl
   · intro h; rw [hasAny_or] at h; rw [List.any_append]
     rcases Bool.or_eq_true _ _ ▸ h with h | h
@@ -238,6 +245,11 @@ theorem ext_trans (a b c : CSt) (h1 : Ext a b) (h2 : Ext b c) : Ext a c := by
     rcases Bool.or_eq_true _ _ ▸ h with h | h
     · rw [g4 h]; rfl
     · rw [k4 h]; simp
+  · intro s hs
+    rcases List.mem_append.mp hs with h | h
+    · exact setterBits_mono b1 b2 s (Or.inl (g5 s h))
+    · exact setterBits_mono b1 b2 s (Or.inr (k5 s h))
+  · rw [hasAny_or, g6, k6]; rfl
 
 theorem handleYearOfEra_ext (c : Char) (rest : Text) (st st' : CSt) (k : Nat)
     (h : handleYearOfEra c rest st = .ok (st', k)) : Ext st st' := by
@@ -257,14 +269,14 @@ theorem handleYearOfEra_ext (c : Char) (rest : Text) (st st' : CSt) (k : Nat)
           rw [h3] at h; injection h with h; injection h with h _
           rw [← h]
           have a := ext_field_step st st1 F.yearOfEra (.num .yearOfEra2 .yearOfEra 2 2 0 99) h2
-            (good_untracked _ _ (by decide) (by decide) (by decide) (by decide))
+            (good_untracked _ _ (by decide) (by decide) (by decide) (by decide) (by setter_bits) (by decide))
           obtain ⟨e1, e2⟩ := addField_ok _ st2 _ h3
           exact ext_trans _ _ _ a ⟨F.yearTwoDigits, [], e1, by simp [e2], rfl, fun h => absurd h (by decide),
-            fun h => absurd h (by decide), fun h => absurd h (by decide)⟩
+            fun h => absurd h (by decide), fun h => absurd h (by decide), fun s hs => (by simp at hs), by decide⟩
       · split at h
         · injection h with h; injection h with h _
           rw [← h]
-          exact ext_field_step st st1 F.yearOfEra _ h2 (good_untracked _ _ (by decide) (by decide) (by decide) (by decide))
+          exact ext_field_step st st1 F.yearOfEra _ h2 (good_untracked _ _ (by decide) (by decide) (by decide) (by decide) (by setter_bits) (by decide))
         · cases h
 
 theorem handleMonthOrDay_ext (month : Bool) (c : Char) (rest : Text) (st st' : CSt) (k : Nat)
@@ -283,7 +295,7 @@ theorem handleMonthOrDay_ext (month : Bool) (c : Char) (rest : Text) (st st' : C
           rw [h2] at h; injection h with h; injection h with h _
           rw [← h]
           exact ext_step_field st st1 _ _ h2 ⟨by simp [dtStepWF], fun h => absurd h (by decide), fun _ => by simp [setsSlot],
-            fun h => absurd h (by decide)⟩
+            fun h => absurd h (by decide), fun t ht => (by simp only [List.mem_singleton] at ht; subst ht; setter_bits), by decide⟩
       · simp only [hn, decide_true, if_true] at h
         cases h2 : addField (addStep st (.num .monthNum .monthNum n 2 1 99)) F.monthNum with
         | error e => rw [h2] at h; cases h
@@ -291,7 +303,7 @@ theorem handleMonthOrDay_ext (month : Bool) (c : Char) (rest : Text) (st st' : C
           rw [h2] at h; injection h with h; injection h with h _
           rw [← h]
           exact ext_step_field st st1 _ _ h2 ⟨by simp [dtStepWF], fun _ => by simp [setsSlot], fun h => absurd h (by decide),
-            fun h => absurd h (by decide)⟩
+            fun h => absurd h (by decide), fun t ht => (by simp only [List.mem_singleton] at ht; subst ht; setter_bits), by decide⟩
     · cases month
       · simp only [hn, decide_false, Bool.false_eq_true, if_false] at h
         cases h2 : addField (addStep st (.dayText n)) F.dayOfWeek with
@@ -299,7 +311,7 @@ theorem handleMonthOrDay_ext (month : Bool) (c : Char) (rest : Text) (st st' : C
         | ok st1 =>
           rw [h2] at h; injection h with h; injection h with h _
           rw [← h]
-          exact ext_step_field st st1 _ _ h2 (good_untracked _ _ rfl (by decide) (by decide) (by decide))
+          exact ext_step_field st st1 _ _ h2 (good_untracked _ _ rfl (by decide) (by decide) (by decide) (by setter_bits) (by decide))
       · simp only [hn, decide_false, Bool.false_eq_true, if_false, if_true] at h
         cases h2 : addField (addStep st (.monthText n)) F.monthText with
         | error e => rw [h2] at h; cases h
@@ -307,7 +319,7 @@ theorem handleMonthOrDay_ext (month : Bool) (c : Char) (rest : Text) (st st' : C
           rw [h2] at h; injection h with h; injection h with h _
           rw [← h]
           exact ext_step_field st st1 _ _ h2 ⟨by simp [dtStepWF], fun h => absurd h (by decide), fun h => absurd h (by decide),
-            fun _ => by simp [setsSlot]⟩
+            fun _ => by simp [setsSlot], fun t ht => (by simp only [List.mem_singleton] at ht; subst ht; setter_bits), by decide⟩
 
 theorem handleDate_ext (cu : Culture) (c : Char) (rest : Text) (st st' : CSt) (k : Nat)
     (h : handleDate cu c rest st = .ok (st', k)) : Ext st st' := by
@@ -323,7 +335,7 @@ theorem handleDate_ext (cu : Culture) (c : Char) (rest : Text) (st st' : CSt) (k
     · rw [if_pos c1] at h; exact handleYearOfEra_ext _ _ _ _ _ h
     rw [if_neg c1] at h
     by_cases c2 : c = 'u'
-    · rw [if_pos c2] at h; exact handlePadded_ext _ _ _ _ _ _ _ _ (fun n => good_untracked _ _ (by simp [dtStepWF]) (by decide) (by decide) (by decide)) _ _ h
+    · rw [if_pos c2] at h; exact handlePadded_ext _ _ _ _ _ _ _ _ (fun n => good_untracked _ _ (by simp [dtStepWF]) (by decide) (by decide) (by decide) (by setter_bits) (by decide)) _ _ h
     rw [if_neg c2] at h
     by_cases c3 : c = 'M'
     · rw [if_pos c3] at h; exact handleMonthOrDay_ext _ _ _ _ _ _ h
@@ -332,10 +344,10 @@ theorem handleDate_ext (cu : Culture) (c : Char) (rest : Text) (st st' : CSt) (k
     · rw [if_pos c4] at h; exact handleMonthOrDay_ext _ _ _ _ _ _ h
     rw [if_neg c4] at h
     by_cases c5 : c = 'c'
-    · rw [if_pos c5] at h; exact handleSingle_ext _ _ _ (good_untracked _ _ rfl (by decide) (by decide) (by decide)) _ _ h
+    · rw [if_pos c5] at h; exact handleSingle_ext _ _ _ (good_untracked _ _ rfl (by decide) (by decide) (by decide) (by setter_bits) (by decide)) _ _ h
     rw [if_neg c5] at h
     by_cases c6 : c = 'g'
-    · rw [if_pos c6] at h; exact handleCounted_ext _ _ _ _ _ _ (fun _ => good_untracked _ _ rfl (by decide) (by decide) (by decide)) _ _ h
+    · rw [if_pos c6] at h; exact handleCounted_ext _ _ _ _ _ _ (fun _ => good_untracked _ _ rfl (by decide) (by decide) (by decide) (by setter_bits) (by decide)) _ _ h
     rw [if_neg c6] at h
     exact handleDefault_ext _ _ _ _ h
 
@@ -356,7 +368,7 @@ theorem handleDateTime_ext (cu : Culture) (c : Char) (rest : Text) (st st' : CSt
     · rw [if_pos c2] at h; exact handleYearOfEra_ext _ _ _ _ _ h
     rw [if_neg c2] at h
     by_cases c3 : c = 'u'
-    · rw [if_pos c3] at h; exact handlePadded_ext _ _ _ _ _ _ _ _ (fun n => good_untracked _ _ (by simp [dtStepWF]) (by decide) (by decide) (by decide)) _ _ h
+    · rw [if_pos c3] at h; exact handlePadded_ext _ _ _ _ _ _ _ _ (fun n => good_untracked _ _ (by simp [dtStepWF]) (by decide) (by decide) (by decide) (by setter_bits) (by decide)) _ _ h
     rw [if_neg c3] at h
     by_cases c4 : c = 'M'
     · rw [if_pos c4] at h; exact handleMonthOrDay_ext _ _ _ _ _ _ h
@@ -374,28 +386,28 @@ theorem handleDateTime_ext (cu : Culture) (c : Char) (rest : Text) (st st' : CSt
     · rw [if_pos c8] at h; injection h with h; injection h with h _; rw [← h]; exact ext_addStep st _ rfl
     rw [if_neg c8] at h
     by_cases c9 : c = 'h'
-    · rw [if_pos c9] at h; exact handlePadded_ext _ _ _ _ _ _ _ _ (fun n => good_untracked _ _ (by simp [dtStepWF]) (by decide) (by decide) (by decide)) _ _ h
+    · rw [if_pos c9] at h; exact handlePadded_ext _ _ _ _ _ _ _ _ (fun n => good_untracked _ _ (by simp [dtStepWF]) (by decide) (by decide) (by decide) (by setter_bits) (by decide)) _ _ h
     rw [if_neg c9] at h
     by_cases c10 : c = 'H'
-    · rw [if_pos c10] at h; exact handlePadded_ext _ _ _ _ _ _ _ _ (fun n => good_untracked _ _ (by simp [dtStepWF]) (by decide) (by decide) (by decide)) _ _ h
+    · rw [if_pos c10] at h; exact handlePadded_ext _ _ _ _ _ _ _ _ (fun n => good_untracked _ _ (by simp [dtStepWF]) (by decide) (by decide) (by decide) (by setter_bits) (by decide)) _ _ h
     rw [if_neg c10] at h
     by_cases c11 : c = 'm'
-    · rw [if_pos c11] at h; exact handlePadded_ext _ _ _ _ _ _ _ _ (fun n => good_untracked _ _ (by simp [dtStepWF]) (by decide) (by decide) (by decide)) _ _ h
+    · rw [if_pos c11] at h; exact handlePadded_ext _ _ _ _ _ _ _ _ (fun n => good_untracked _ _ (by simp [dtStepWF]) (by decide) (by decide) (by decide) (by setter_bits) (by decide)) _ _ h
     rw [if_neg c11] at h
     by_cases c12 : c = 's'
-    · rw [if_pos c12] at h; exact handlePadded_ext _ _ _ _ _ _ _ _ (fun n => good_untracked _ _ (by simp [dtStepWF]) (by decide) (by decide) (by decide)) _ _ h
+    · rw [if_pos c12] at h; exact handlePadded_ext _ _ _ _ _ _ _ _ (fun n => good_untracked _ _ (by simp [dtStepWF]) (by decide) (by decide) (by decide) (by setter_bits) (by decide)) _ _ h
     rw [if_neg c12] at h
     by_cases c13 : c = 'f' ∨ c = 'F'
     · rw [if_pos c13] at h; exact handleFraction_ext _ _ _ _ _ h
     rw [if_neg c13] at h
     by_cases c14 : c = 't'
-    · rw [if_pos c14] at h; exact handleCounted_ext _ _ _ _ _ _ (fun _ => good_untracked _ _ rfl (by decide) (by decide) (by decide)) _ _ h
+    · rw [if_pos c14] at h; exact handleCounted_ext _ _ _ _ _ _ (fun _ => good_untracked _ _ rfl (by decide) (by decide) (by decide) (by setter_bits) (by decide)) _ _ h
     rw [if_neg c14] at h
     by_cases c15 : c = 'c'
-    · rw [if_pos c15] at h; exact handleSingle_ext _ _ _ (good_untracked _ _ rfl (by decide) (by decide) (by decide)) _ _ h
+    · rw [if_pos c15] at h; exact handleSingle_ext _ _ _ (good_untracked _ _ rfl (by decide) (by decide) (by decide) (by setter_bits) (by decide)) _ _ h
     rw [if_neg c15] at h
     by_cases c16 : c = 'g'
-    · rw [if_pos c16] at h; exact handleCounted_ext _ _ _ _ _ _ (fun _ => good_untracked _ _ rfl (by decide) (by decide) (by decide)) _ _ h
+    · rw [if_pos c16] at h; exact handleCounted_ext _ _ _ _ _ _ (fun _ => good_untracked _ _ rfl (by decide) (by decide) (by decide) (by setter_bits) (by decide)) _ _ h
     rw [if_neg c16] at h
     by_cases c17 : c = 'l'
     · rw [if_pos c17] at h; cases h
@@ -415,7 +427,7 @@ theorem handleAnnualDay_ext (c : Char) (rest : Text) (st st' : CSt) (k : Nat)
       rw [h2] at h; injection h with h; injection h with h _
       rw [← h]
       exact ext_step_field st st1 _ _ h2 ⟨by simp [dtStepWF], fun h => absurd h (by decide), fun _ => by simp [setsSlot],
-        fun h => absurd h (by decide)⟩
+        fun h => absurd h (by decide), fun t ht => (by simp only [List.mem_singleton] at ht; subst ht; setter_bits), by decide⟩
 
 theorem handleAnnual_ext (cu : Culture) (c : Char) (rest : Text) (st st' : CSt) (k : Nat)
     (h : handleAnnual cu c rest st = .ok (st', k)) : Ext st st' := by
